@@ -189,8 +189,11 @@ Reader(d) == \E k \in 1..Len(rcv[d].buf) : AppRead(d, k)
 
 Next == \E d \in Dirs : Sender(d) \/ Writer(d) \/ RecvWU(d) \/ RecvFrame(d) \/ Reader(d)
 
-Fair == \A d \in Dirs : /\ WF_vars(Sender(d)) /\ WF_vars(Writer(d)) /\ WF_vars(RecvWU(d))
-                        /\ WF_vars(RecvFrame(d)) /\ WF_vars(Reader(d))
+(* Every step consumes something (a unit to write, send, receive, read, or a WINDOW_UPDATE in flight), *)
+(* so no behaviour takes infinitely many steps: weak fairness of Next as a whole (the system does not     *)
+(* stop while some step is possible) is all the liveness argument needs.  NoStrand is the same fact as    *)
+(* a state predicate: a state without successor is a completed exchange.                                  *)
+Fair == WF_vars(Next)
 
 Spec == Init /\ [][Next]_vars /\ Fair
 
@@ -241,4 +244,5 @@ HeldCreditSmall == \A d \in Dirs : rcv[d].cu < Thresh /\ rcv[d].su < Thresh
 
 (* C14, liveness: every exchange completes *)
 Completes == <>AllDone
+NoStrand == (~ENABLED Next) => AllDone
 =============================================================================
